@@ -53,6 +53,15 @@ def _wrap(e):
     return SpVal(e)
 
 
+def _bin(o, fn):
+    """binary operator against a scalar or (elementwise) a numpy array"""
+    if isinstance(o, np.ndarray):
+        out = np.empty(o.shape, dtype=object)
+        out.reshape(-1)[:] = [SpVal(fn(x)) for x in o.flat]
+        return out
+    return SpVal(fn(o))
+
+
 class SpVal:
     __slots__ = ("e",)
     __array_priority__ = 1000
@@ -64,16 +73,16 @@ class SpVal:
         return f"SpVal({self.e})"
 
     # arithmetic
-    def __add__(self, o): return _wrap(self.e + to_sp(o))
-    def __radd__(self, o): return _wrap(to_sp(o) + self.e)
-    def __sub__(self, o): return _wrap(self.e - to_sp(o))
-    def __rsub__(self, o): return _wrap(to_sp(o) - self.e)
-    def __mul__(self, o): return _wrap(self.e * to_sp(o))
-    def __rmul__(self, o): return _wrap(to_sp(o) * self.e)
-    def __truediv__(self, o): return _wrap(self.e / to_sp(o))
-    def __rtruediv__(self, o): return _wrap(to_sp(o) / self.e)
-    def __pow__(self, o): return _wrap(sp.Pow(self.e, to_sp(o)))
-    def __rpow__(self, o): return _wrap(sp.Pow(to_sp(o), self.e))
+    def __add__(self, o): return _bin(o, lambda x: self.e + to_sp(x))
+    def __radd__(self, o): return _bin(o, lambda x: to_sp(x) + self.e)
+    def __sub__(self, o): return _bin(o, lambda x: self.e - to_sp(x))
+    def __rsub__(self, o): return _bin(o, lambda x: to_sp(x) - self.e)
+    def __mul__(self, o): return _bin(o, lambda x: self.e * to_sp(x))
+    def __rmul__(self, o): return _bin(o, lambda x: to_sp(x) * self.e)
+    def __truediv__(self, o): return _bin(o, lambda x: self.e / to_sp(x))
+    def __rtruediv__(self, o): return _bin(o, lambda x: to_sp(x) / self.e)
+    def __pow__(self, o): return _bin(o, lambda x: sp.Pow(self.e, to_sp(x)))
+    def __rpow__(self, o): return _bin(o, lambda x: sp.Pow(to_sp(x), self.e))
     def __neg__(self): return _wrap(-self.e)
     def __pos__(self): return self
     def __abs__(self): return _wrap(sp.Abs(self.e))
@@ -266,6 +275,15 @@ def sp_native(f, args, kwargs):
     g = _TABLE.get(id(f))
     if g is not None and not kwargs:
         return g(*args)
+    try:
+        import scipy.stats as st
+        if getattr(f, "__self__", None) is st.norm and not kwargs and len(args) == 1:
+            if f.__name__ == "cdf":
+                return _elementwise(lambda v: (1 + sp.erf(v / sp.sqrt(2))) / 2)(args[0])
+            if f.__name__ == "pdf":
+                return _elementwise(lambda v: sp.exp(-v ** 2 / 2) / sp.sqrt(2 * sp.pi))(args[0])
+    except ImportError:
+        pass
     return NotImplemented
 
 
